@@ -273,14 +273,14 @@ class C04(vlib.Driver):
                               "ops": [["clone"], ["train"], ["mut", meth, args_for(meth, effective=True)], ["clone"],
                                       ["mut", second, args_for(second, effective=True)], ["clone"], ["reinit"]]}); nseed += 1
                 cases.append({"kind": "e2e", "block": blk, "seed": nseed, "ops": [["train"], ["mut", meth, args_for(meth)], ["clone"], ["reinit"]]}); nseed += 1
-                if any(a.startswith("numb_new") for a in argn[meth]):
+                if any(a.startswith("numb_new") for a in argn[meth]) and (tier != "quick" or rng.random() < 0.5):
                     cases.append({"kind": "e2e", "block": blk, "seed": nseed, "ops": [["train"], ["mut", meth, args_for(meth, guard=True)]]}); nseed += 1
             cases.append({"kind": "e2e", "block": blk, "seed": nseed, "ops": [["train"], ["recreate"], ["clone"], ["rand"], ["reinit"]]}); nseed += 1
             m0 = rng.choice(methods)
             cases.append({"kind": "e2e", "block": blk, "seed": nseed,
                           "ops": [["train"], ["act", rng.choice(["Tanh", "ELU", "GELU", "PReLU"])], ["clone"], ["mut", m0, args_for(m0, effective=True)],
                                   ["act", "ReLU"], ["clone"]]}); nseed += 1
-            nchains = 2 if tier == "quick" else 12
+            nchains = 1 if tier == "quick" else 12
             for c in range(nchains):
                 L = rng.randint(3, 6) if tier == "quick" else rng.randint(4, 10)
                 ops = []
